@@ -201,6 +201,38 @@ theorem segGuard_of_close (p0 p1 x : V3 ℝ) (h : eps20 * edist x p0 < edist p0 
   by_contra hn
   exact absurd (seg_short_of_not_guard p0 p1 x hn) (not_le.mpr h)
 
+open Classical in
+/-- relative slack of `ref_search_distance2`: `1` when the divisible guard passes or the segment has zero
+    length (the value is then the exact minimum), `1 - 1e-20` in the remaining far-field branch -/
+noncomputable def segSlack (p0 p1 x : V3 ℝ) : ℝ := if SegGuard p0 p1 x ∨ p0 = p1 then 1 else 1 - eps20
+
+theorem segSlack_le_one (p0 p1 x : V3 ℝ) : segSlack p0 p1 x ≤ 1 := by
+  unfold segSlack; split_ifs
+  · exact le_refl _
+  · linarith [eps20_pos]
+
+theorem segSlack_ge (p0 p1 x : V3 ℝ) : 1 - eps20 ≤ segSlack p0 p1 x := by
+  unfold segSlack; split_ifs
+  · linarith [eps20_pos]
+  · exact le_refl _
+
+theorem segSlack_pos (p0 p1 x : V3 ℝ) : 0 < segSlack p0 p1 x :=
+  lt_of_lt_of_le (by linarith [eps20_lt_one]) (segSlack_ge p0 p1 x)
+
+theorem segSlack_eq_one {p0 p1 x : V3 ℝ} (h : SegGuard p0 p1 x ∨ p0 = p1) : segSlack p0 p1 x = 1 := by
+  unfold segSlack; rw [if_pos h]
+
+/-- `segSlack · value ≤ dist(x, y)` for every point `y` of the segment -/
+theorem segSlack_mul_le (p0 p1 x y : V3 ℝ) (hy : OnSeg p0 p1 y) :
+    segSlack p0 p1 x * dist2seg p0 p1 x ≤ edist x y := by
+  unfold segSlack
+  split_ifs with h
+  · rw [one_mul]
+    rcases h with h | h
+    · exact dist2seg_le_of_guard p0 p1 x h y hy
+    · subst h; exact dist2seg_le_of_degenerate p0 x y hy
+  · exact dist2seg_near p0 p1 x y hy
+
 /-! ## convexity of balls -/
 
 theorem sqd_lerp_center (c a b : V3 ℝ) (t : ℝ) :
